@@ -42,18 +42,28 @@ def run_step(laze, tmp, root, cli, sc, stop=0, extra_env=None):
     bindir = os.path.join(tmp, "bin")
     start = os.path.join(root, cli["local"]) if cli.get("local") not in (None, ".") else root
     args = [laze, "-C", start, "build"] + ([] if cli.get("local") is not None else ["-g"]) + \
-           (["-G"] if sc.get("generate_only") else []) + proj.argv(cli) + mcn.scenario_args(sc)
+           (["-G"] if sc.get("generate_only") else []) + (["--info-export", os.path.join(tmp, "info.json")] if sc.get("info") else []) + \
+           proj.argv(cli) + mcn.scenario_args(sc)
     nlog = os.path.join(tmp, "ninja.log"); tlog = os.path.join(tmp, "task.log")
     for p in (nlog, tlog):
         if os.path.exists(p): os.remove(p)
     env = e2e.clean_env(tmp)
     env.update(PATH=bindir + ":" + env.get("PATH", ""), LAZE_VERIF_NINJA_LOG=nlog, LAZE_VERIF_NINJA_RC=str(sc.get("ninja_rc", 0)),
                LAZE_VERIF_TASK_SCRIPT=os.path.join(tmp, "task.sh"), LAZE_VERIF_TASK_LOG=tlog,
-               LAZE_VERIF_TASK_FAIL=" ".join("%s:%s" % tuple(x) for x in sc.get("fail", [])))
+               LAZE_VERIF_TASK_FAIL="" if sc.get("kill_tasks") else " ".join("%s:%s" % tuple(x) for x in sc.get("fail", [])),
+               LAZE_VERIF_TASK_KILL=" ".join("%s:%s" % tuple(x) for x in sc.get("fail", [])) if sc.get("kill_tasks") else "")
     if stop: env["LAZE_VERIF_FAULT"] = FAULTS[stop]
     env.update(extra_env or {})
+    pre = None
+    if sc.get("fsize") is not None:
+        # a write error: no file may grow beyond this size (EFBIG; the signal that comes with it is ignored)
+        lim = sc["fsize"]
+        def pre():
+            import resource, signal
+            signal.signal(signal.SIGXFSZ, signal.SIG_IGN)
+            resource.setrlimit(resource.RLIMIT_FSIZE, (lim, lim))
     try:
-        p = subprocess.run(args, env=env, capture_output=True, timeout=60)
+        p = subprocess.run(args, env=env, capture_output=True, timeout=60, preexec_fn=pre)
         rc, so, se = p.returncode, p.stdout.decode("utf-8", "replace"), p.stderr.decode("utf-8", "replace")
     except subprocess.TimeoutExpired:
         rc, so, se = "timeout", "", ""
@@ -64,7 +74,7 @@ def run_step(laze, tmp, root, cli, sc, stop=0, extra_env=None):
     return dict(rc=rc, stdout=so, stderr=se, ninja_argv=argvs, tasks=tasks, argv=args[1:],
                 cache_hit=e2e.was_cache_hit(ev, so),
                 ninja=open(nf, "rb").read() if os.path.exists(nf) else None,
-                cache_exists=os.path.exists(cache_path(root, cli)))
+                cache_exists=os.path.exists(cache_path(root, cli)) and os.path.getsize(cache_path(root, cli)) >= 24)   # (a truncated file is no cache)
 
 def other_binary(root, oldbin):
     """what a change of the laze binary means for the build directory: every cache in it was written
@@ -99,13 +109,19 @@ def execute(laze, h, fresh_check=True):
             if op["op"] == "edit":
                 apply_tree(root, h["versions"], tree, op["tree"]); tree = dict(op["tree"])
                 steps.append(None)
+            elif op["op"] == "corrupt":
+                # what a kill inside the write of the cache file, or a full disk, leaves: a truncated file
+                cp = cache_path(root, {"local": "x"} if op["local"] else {})
+                if os.path.exists(cp):
+                    with open(cp, "r+b") as cf: cf.truncate(op["size"])
+                steps.append(None)
             else:
                 if op.get("bin", 1) != curbin:
                     other_binary(root, curbin); curbin = op.get("bin", 1)
                 steps.append(run_step(laze, tmp, root, op["cli"], op.get("sc", {}), op.get("stop", 0)))
         fresh = None
         last = h["ops"][-1]
-        if fresh_check and last["op"] == "run" and not last.get("stop") and steps[-1]["rc"] == 0:
+        if fresh_check and last["op"] == "run" and not last.get("stop") and steps[-1]["rc"] == 0 and not last.get("sc", {}).get("info"):
             # the same command line again, nothing changed: has to be served from the cache
             steps[-1]["again_hit"] = run_step(laze, tmp, root, last["cli"], last.get("sc", {}), 0)["cache_hit"]
         if fresh_check and last["op"] == "run" and not last.get("stop"):
@@ -126,9 +142,11 @@ def request(h, laze, root, bin_id=1):
     for op in h["ops"]:
         if op["op"] == "edit":
             toks += ["E"] + vt(op["tree"])
+        elif op["op"] == "corrupt":
+            toks += ["C", proj.b(op["local"])]
         else:
             sc = op.get("sc", {}); fail = sc.get("fail", [])
-            toks += ["R", str(op.get("bin", bin_id)), str(op.get("stop", 0))] + proj.cli(op["cli"], "build", root, laze) + [
+            toks += ["R", str(op.get("bin", bin_id)), str(op.get("stop", 0)), proj.b(sc.get("info", False))] + proj.cli(op["cli"], "build", root, laze) + [
                 core.hopt(sc.get("task")), proj.b(sc.get("generate_only", False)), proj.b(sc.get("multiple", False)), str(sc.get("keep_going", 1)),
                 "-" if sc.get("jobs") is None else str(sc["jobs"]), str(sc.get("verbose", 0)), proj.b(sc.get("ninja_rc", 0) == 0),
                 str(len(fail))] + [t for b, a in fail for t in (core.hexs(b), core.hexs(a))]
@@ -157,7 +175,7 @@ def compare(h, steps, model):
     dis = []
     cur = {False: None, True: None}       # the model's complete file per slot
     for i, (op, o, m) in enumerate(zip(h["ops"], steps, model)):
-        if op["op"] == "edit": continue
+        if op["op"] != "run": continue
         loc = op["cli"].get("local") is not None
         k = m["kind"]
         ik = "K" if o["rc"] == -6 else ("H" if o["cache_hit"] else None)
@@ -360,10 +378,13 @@ def gen_history(rng, faults=(1, 2, 3, 4, 5, 6, 7)):
     def scen():
         sc = {}
         if rng.random() < 0.15: sc["generate_only"] = True
+        if rng.random() < 0.12: sc["info"] = True              # --info-export: the cache is not read, but written
         if tasknames and rng.random() < 0.3:
             sc["task"] = rng.choice(tasknames); sc["multiple"] = rng.random() < 0.7
             sc["keep_going"] = rng.choice([0, 1, 2])
-            if bl and al and rng.random() < 0.4: sc["fail"] = [(rng.choice(bl), rng.choice(al))]
+            if bl and al and rng.random() < 0.4:
+                sc["fail"] = [(rng.choice(bl), rng.choice(al))]
+                if rng.random() < 0.3: sc["kill_tasks"] = True
         return sc
     def pick_cli():
         """often the arguments of an earlier run, or a narrowing of them: that is where hits come from"""
@@ -393,7 +414,9 @@ def gen_history(rng, faults=(1, 2, 3, 4, 5, 6, 7)):
                 versions[f].append(mutate_docs(rng, versions[f][tree.get(f, 1) - 1], kind)); v = len(versions[f])
             tree = dict(tree); tree[f] = v
             ops.append(dict(op="edit", tree=dict(tree)))
-        elif r < 0.36 and len(tree) > 1:
+        elif r < 0.33 and any(o["op"] == "run" for o in ops):
+            ops.append(dict(op="corrupt", local=rng.random() < 0.3, size=rng.choice([0, 8, 15, 17, 40])))
+        elif r < 0.38 and len(tree) > 1:
             f = rng.choice([x for x in tree if x != "laze-project.yml"])
             tree = dict(tree); del tree[f]
             ops.append(dict(op="edit", tree=dict(tree)))
